@@ -965,6 +965,10 @@ func (x *Exec) shiftArray(st *State, arr Term, lo Term) Term {
 	}
 	n := x.d.Fresh("shift", arr.Sort)
 	st.assume(Term{fmt.Sprintf("(forall ((i Int)) (! (= (select %s i) (select %s (+ i %s))) :pattern ((select %s i))))", n.S, arr.S, lo.S, n.S), "Bool"})
+	if x.ctr != nil && x.ctr.AppendFrames {
+		// the same fact, instantiated from reads of the base array
+		st.assume(Term{fmt.Sprintf("(forall ((j Int)) (! (= (select %s (- j %s)) (select %s j)) :pattern ((select %s j))))", n.S, lo.S, arr.S, arr.S), "Bool"})
+	}
 	return n
 }
 
